@@ -3,14 +3,160 @@ Lemmas for C01–C03 and the rational part of C13.
 -/
 import Sqroot.Proofs.RootDefs
 import Sqroot.Model.Managers
+import Sqroot.Proofs.RootLemmas
 namespace Sqroot.Proofs
 open Sqroot.Model
 
 theorem sqrt_mgr_correct (v : Version) : ManagerCorrect 2 (sqrtMgr v) := by
-  sorry
+  refine ⟨by decide, ?_, ?_, ?_, fun _ => 0, ?_, ?_, ?_⟩
+  · cases v <;> rfl
+  · cases v <;> rfl
+  · cases v <;> rfl
+  · cases v <;> rfl
+  · intro Q _
+    cases v <;>
+      simp only [sqrtMgr, Gen.V1.sqrtNext, Gen.V2.sqrtNext, Gen.V3.sqrtNext, pw] <;>
+      refine Prod.ext ?_ rfl <;> simp only [] <;> ring
+  · intro Q _
+    cases v <;>
+      simp only [sqrtMgr, Gen.V1.sqrtNextDigit, Gen.V2.sqrtNextDigit, Gen.V3.sqrtNextDigit, pw] <;>
+      refine Prod.ext ?_ rfl <;> simp only [] <;> ring
 
 theorem cube_mgr_correct (v : Version) : ManagerCorrect 3 (cubeMgr v) := by
-  sorry
+  refine ⟨by decide, ?_, ?_, ?_, fun Q => 6 * (Q + 1), ?_, ?_, ?_⟩
+  · cases v <;> rfl
+  · cases v <;> rfl
+  · cases v <;> rfl
+  · cases v <;> rfl
+  · intro Q _
+    cases v <;>
+      simp only [cubeMgr, Gen.V1.cubeNext, Gen.V2.cubeNext, Gen.V3.cubeNext, pw] <;>
+      refine Prod.ext ?_ ?_ <;> simp only [] <;> ring
+  · intro Q _
+    cases v <;>
+      simp only [cubeMgr, Gen.V1.cubeNextDigit, Gen.V2.cubeNextDigit, Gen.V3.cubeNextDigit, pw] <;>
+      refine Prod.ext ?_ ?_ <;> simp only [] <;> ring
+
+/-! ### the model iterators are instances of the generic ones -/
+
+theorem iterDigits_eq (mgr : Manager) (den k : Nat) (s : RootSt) :
+    iterDigits mgr den k s = iterD (rootStep mgr den) k s := by
+  induction k generalizing s with
+  | zero => rfl
+  | succ k ih =>
+    rw [iterDigits, iterD]
+    cases rootStep mgr den s with
+    | none => rfl
+    | some p => obtain ⟨d, s1⟩ := p; simp only [ih]
+
+theorem rootPrefix_fst (mgr : Manager) (num den k : Nat) :
+    (rootPrefix mgr num den k).1 =
+      iterD (rootStep mgr (normalize num den mgr.base).den) k
+        (rootInit mgr (normalize num den mgr.base).num) := by
+  rw [← iterDigits_eq]; rfl
+
+theorem rootPrefix_snd (mgr : Manager) (num den k : Nat) :
+    (rootPrefix mgr num den k).2 = (normalize num den mgr.base).exp := rfl
+
+theorem ofDigits_append (ds : List Nat) (d : Nat) :
+    Spec.ofDigits (ds ++ [d]) = 10 * Spec.ofDigits ds + d := by
+  simp [Spec.ofDigits, List.foldl_append]
+
+/-! ### the invariant along the digit stream -/
+
+/-- what is known after `j` calls that produced the digits `ds` -/
+def RootI (n : Nat) (aux : Int → Int) (den X j : Nat) (ds : List Nat) (s : RootSt) : Prop :=
+  ds.length = j ∧ (∀ d ∈ ds, d ≤ 9) ∧ (∀ d, ds.head? = some d → 1 ≤ d) ∧
+    ∃ G, Inv n aux den X j (Spec.ofDigits ds) G s
+
+theorem base_gt_one {n : Nat} (hn : 0 < n) : 1 < 10 ^ n :=
+  Nat.one_lt_pow (by omega) (by omega)
+
+theorem root_core {n : Nat} {mgr : Manager} (hm : ManagerCorrect n mgr) (aux : Int → Int)
+    (haux0 : mgr.init2 = aux 0)
+    (hnext : ∀ Q : Int, 0 ≤ Q → mgr.next (pw n Q) (aux Q) = (pw n (Q + 1), aux (Q + 1)))
+    (hnd : ∀ Q : Int, 0 ≤ Q → mgr.nextDigit (pw n Q) (aux Q) = (pw n (10 * Q), aux (10 * Q)))
+    (X den : Nat) (hXden : X < den) (hdenX : den ≤ X * 10 ^ n) :
+    ∀ k s', iterS (rootStep mgr den) k (rootInit mgr X) = some s' →
+      RootI n aux den X k (iterD (rootStep mgr den) k (rootInit mgr X)) s' := by
+  obtain ⟨hn, hB, hrem0, hinit1, -⟩ := hm
+  apply iter_inv
+  · refine ⟨rfl, by simp, by simp, 0, ?_⟩
+    have h0 : (0 : Int) ^ n = 0 := zero_pow (by omega)
+    have hn0 : n ≠ 0 := by omega
+    refine ⟨by simp [rootInit], hXden, ?_, by simp [Spec.ofDigits, hn0], by simp [Spec.ofDigits], ?_, ?_⟩
+    · simp [rootInit, hrem0, Spec.ofDigits, h0]
+    · simp [rootInit, hinit1, Spec.ofDigits, pw, h0]
+    · simp [rootInit, haux0, Spec.ofDigits]
+  · rintro j ds s d s' ⟨hlen, h9, hhead, G, hI⟩ hstep
+    obtain ⟨hd9, hI', hnum'⟩ := rootStep_inv hn hB aux hnext hnd hI hstep
+    refine ⟨by simp [hlen], ?_, ?_, _, by rw [ofDigits_append]; exact hI'⟩
+    · intro x hx
+      rcases List.mem_append.mp hx with h | h
+      · exact h9 x h
+      · simp only [List.mem_singleton] at h; omega
+    · intro x hx
+      cases ds with
+      | cons a t =>
+        simp only [List.cons_append, List.head?_cons, Option.some.injEq] at hx
+        exact hhead x (by simp [hx])
+      | nil =>
+        simp only [List.nil_append, List.head?_cons, Option.some.injEq] at hx
+        subst hx
+        simp only [List.length_nil] at hlen
+        subst hlen
+        have hG : G = 0 := by
+          have := hI.hi
+          simp only [Spec.ofDigits, List.foldl_nil, Nat.zero_add, Nat.one_pow] at this
+          omega
+        have hsn : s.num = X := by
+          have := hI.grp
+          simp only [hG, pow_zero, Nat.mul_one, Nat.zero_mul, Nat.zero_add] at this
+          exact this.symm
+        have hpos : 1 ≤ s.num * 10 ^ n / den := by
+          rw [hsn]
+          exact Nat.div_pos hdenX (by omega)
+        by_contra hd0
+        have hd0 : d = 0 := by omega
+        have := hI'.hi
+        simp only [hd0, Spec.ofDigits, List.foldl_nil, Nat.mul_zero, Nat.zero_add, Nat.one_pow,
+          hG, Nat.zero_mul] at this
+        omega
+
+/-- inequalities about `num/den` are inequalities about the normalised radicand -/
+theorem root_transport {n : Nat} (hn : 0 < n) (num den : Nat) (hnum : 0 < num) (hden : 0 < den)
+    (L Y : Nat) :
+    (Y * 10 ^ (n * ((normalize num den (10 ^ n)).exp - L).toNat) * den ≤
+        num * 10 ^ (n * ((L : Int) - (normalize num den (10 ^ n)).exp).toNat) ↔
+      Y * (normalize num den (10 ^ n)).den ≤ (normalize num den (10 ^ n)).num * (10 ^ n) ^ L) ∧
+    (num * 10 ^ (n * ((L : Int) - (normalize num den (10 ^ n)).exp).toNat) <
+        Y * 10 ^ (n * ((normalize num den (10 ^ n)).exp - L).toNat) * den ↔
+      (normalize num den (10 ^ n)).num * (10 ^ n) ^ L < Y * (normalize num den (10 ^ n)).den) ∧
+    (Y * 10 ^ (n * ((normalize num den (10 ^ n)).exp - L).toNat) * den =
+        num * 10 ^ (n * ((L : Int) - (normalize num den (10 ^ n)).exp).toNat) ↔
+      Y * (normalize num den (10 ^ n)).den = (normalize num den (10 ^ n)).num * (10 ^ n) ^ L) := by
+  obtain ⟨hX0, hXlt, hdenX, hrel⟩ := normalize_spec num den (10 ^ n) (base_gt_one hn) hnum hden
+  generalize normalize num den (10 ^ n) = nm at *
+  rw [pow_mul, pow_mul]
+  exact transport (10 ^ n) num den nm.num nm.den (-nm.exp).toNat nm.exp.toNat
+    (nm.exp - L).toNat ((L : Int) - nm.exp).toNat L (Nat.pow_pos (by omega)) hden (by omega) hrel
+    (by omega) Y
+
+/-- everything known about the state after `L` successful calls -/
+theorem root_state {n : Nat} {mgr : Manager} (hm : ManagerCorrect n mgr)
+    (num den : Nat) (hnum : 0 < num) (hden : 0 < den) :
+    0 < n ∧ mgr.base = 10 ^ n ∧ 0 < (normalize num den (10 ^ n)).num ∧
+    ∃ aux : Int → Int,
+      (∀ Q : Int, 0 ≤ Q → mgr.next (pw n Q) (aux Q) = (pw n (Q + 1), aux (Q + 1))) ∧
+      (∀ Q : Int, 0 ≤ Q → mgr.nextDigit (pw n Q) (aux Q) = (pw n (10 * Q), aux (10 * Q))) ∧
+      ∀ L s', iterS (rootStep mgr (normalize num den (10 ^ n)).den) L
+            (rootInit mgr (normalize num den (10 ^ n)).num) = some s' →
+        RootI n aux (normalize num den (10 ^ n)).den (normalize num den (10 ^ n)).num L
+          (iterD (rootStep mgr (normalize num den (10 ^ n)).den) L
+            (rootInit mgr (normalize num den (10 ^ n)).num)) s' := by
+  obtain ⟨hn, hB, hrem0, hinit1, aux, haux0, hnext, hnd⟩ := id hm
+  obtain ⟨hX0, hXlt, hdenX, -⟩ := normalize_spec num den (10 ^ n) (base_gt_one hn) hnum hden
+  exact ⟨hn, hB, hX0, aux, hnext, hnd, root_core hm aux haux0 hnext hnd _ _ hXlt hdenX⟩
 
 /-- C01/C02 core: the digits are the truncated n-th root, digit by digit. -/
 theorem root_exact {n : Nat} {mgr : Manager} (hm : ManagerCorrect n mgr)
@@ -18,19 +164,81 @@ theorem root_exact {n : Nat} {mgr : Manager} (hm : ManagerCorrect n mgr)
     Spec.TruncRoot n num den (Spec.ofDigits (rootPrefix mgr num den k).1)
         (rootPrefix mgr num den k).2 (rootPrefix mgr num den k).1.length
       ∧ Spec.DigitsOk (rootPrefix mgr num den k).1 := by
-  sorry
+  obtain ⟨hn, hB, -, aux, -, -, hst⟩ := root_state hm num den hnum hden
+  rw [rootPrefix_fst, rootPrefix_snd, hB]
+  have hself := iterD_self_length (rootStep mgr (normalize num den (10 ^ n)).den) k
+    (rootInit mgr (normalize num den (10 ^ n)).num)
+  generalize hds : iterD (rootStep mgr (normalize num den (10 ^ n)).den) k
+    (rootInit mgr (normalize num den (10 ^ n)).num) = ds at *
+  obtain ⟨s', hs'⟩ := (iterS_isSome_iff _ ds.length _).mpr (by rw [hself])
+  have hR := hst ds.length s' hs'
+  rw [hself] at hR
+  obtain ⟨-, h9, hhead, G, hI⟩ := hR
+  refine ⟨?_, h9, hhead⟩
+  have hT := root_transport hn num den hnum hden ds.length
+  have hgrp := hI.grp
+  have hlt := hI.lt
+  constructor
+  · refine ((hT _).1).mpr ?_
+    have := Nat.mul_le_mul_right (normalize num den (10 ^ n)).den hI.lo
+    omega
+  · refine ((hT _).2.1).mpr ?_
+    have h1 := Nat.mul_le_mul_right (normalize num den (10 ^ n)).den hI.hi
+    rw [Nat.succ_mul] at h1
+    omega
 
 /-- asking for fewer digits gives a prefix; the exponent does not depend on `k` -/
 theorem root_prefix_take (mgr : Manager) (num den j k : Nat) (hjk : j ≤ k) :
     (rootPrefix mgr num den j).1 = (rootPrefix mgr num den k).1.take j
       ∧ (rootPrefix mgr num den j).2 = (rootPrefix mgr num den k).2 := by
-  sorry
+  refine ⟨?_, rfl⟩
+  rw [rootPrefix_fst, rootPrefix_fst]
+  exact iterD_take _ j k hjk _
+
+theorem rootStep_scale (mgr : Manager) (den c : Nat) (hc : 0 < c) (a : Nat) (r i i2 : Int) :
+    rootStep mgr (c * den) ⟨c * a, r, i, i2⟩ =
+      (rootStep mgr den ⟨a, r, i, i2⟩).map
+        (fun p => (p.1, ⟨c * p.2.num, p.2.rem, p.2.incr, p.2.incr2⟩)) := by
+  rw [rootStep_eq, rootStep_eq]
+  have e1 : c * a * mgr.base / (c * den) = a * mgr.base / den := by
+    rw [Nat.mul_assoc, Nat.mul_div_mul_left _ _ hc]
+  have e2 : c * a * mgr.base % (c * den) = c * (a * mgr.base % den) := by
+    rw [Nat.mul_assoc, Nat.mul_mod_mul_left]
+  have e3 : c * a = 0 ↔ a = 0 := by
+    constructor
+    · intro h
+      rcases Nat.mul_eq_zero.mp h with h | h
+      · omega
+      · exact h
+    · rintro rfl; rfl
+  simp only [e1, e2, e3]
+  by_cases h : a = 0 ∧ r = 0
+  · simp [h]
+  · simp [h, stepOut]
+
+theorem iterDigits_scale (mgr : Manager) (den c : Nat) (hc : 0 < c) (k : Nat) (a : Nat)
+    (r i i2 : Int) :
+    iterDigits mgr (c * den) k ⟨c * a, r, i, i2⟩ = iterDigits mgr den k ⟨a, r, i, i2⟩ := by
+  induction k generalizing a r i i2 with
+  | zero => rfl
+  | succ k ih =>
+    rw [iterDigits, iterDigits, rootStep_scale mgr den c hc]
+    cases rootStep mgr den ⟨a, r, i, i2⟩ with
+    | none => rfl
+    | some p =>
+      obtain ⟨d, s1⟩ := p
+      simp only [Option.map_some, List.cons.injEq, true_and]
+      exact ih _ _ _ _
 
 /-- the result depends only on the value `num/den` -/
 theorem root_repr_indep {n : Nat} {mgr : Manager} (hm : ManagerCorrect n mgr)
     (num den c : Nat) (hnum : 0 < num) (hden : 0 < den) (hc : 0 < c) (k : Nat) :
     rootPrefix mgr (c * num) (c * den) k = rootPrefix mgr num den k := by
-  sorry
+  obtain ⟨hn, hB, -⟩ := hm
+  have _ := hden
+  have hB1 : 1 < mgr.base := hB ▸ base_gt_one hn
+  simp only [rootPrefix, normalize_scale num den mgr.base c hB1 hnum hc, rootInit]
+  rw [iterDigits_scale mgr _ c hc]
 
 /-- C03: the stream ends after exactly `L` digits iff those `L` digits are the exact root;
 then the last digit is non-zero. -/
@@ -39,41 +247,191 @@ theorem root_ends_iff {n : Nat} {mgr : Manager} (hm : ManagerCorrect n mgr)
     RootEndsAt mgr num den L ↔
       ((rootPrefix mgr num den L).1.length = L ∧
         Spec.ExactRoot n num den (Spec.ofDigits (rootPrefix mgr num den L).1) (rootPrefix mgr num den L).2 L) := by
-  sorry
+  obtain ⟨hn, hB, -, aux, -, -, hst⟩ := root_state hm num den hnum hden
+  unfold RootEndsAt Spec.ExactRoot
+  rw [rootPrefix_fst, rootPrefix_fst, rootPrefix_snd, hB, iterD_ends_iff]
+  have hT := root_transport hn num den hnum hden L
+  have hst := hst L
+  generalize normalize num den (10 ^ n) = nm at *
+  constructor
+  · rintro ⟨s', hs', hnone⟩
+    obtain ⟨hlen, -, -, G, hI⟩ := hst s' hs'
+    refine ⟨hlen, ((hT _).2.2).mpr ?_⟩
+    obtain ⟨h1, h2⟩ := (rootStep_none_iff _ _ _).mp hnone
+    have hgrp := hI.grp
+    have hrem := hI.rem
+    rw [h2] at hrem
+    have hG : G = Spec.ofDigits (iterD (rootStep mgr nm.den) L (rootInit mgr nm.num)) ^ n := by
+      have : (G : Int) = ((Spec.ofDigits (iterD (rootStep mgr nm.den) L (rootInit mgr nm.num)) ^ n : Nat) : Int) := by
+        push_cast; omega
+      exact_mod_cast this
+    rw [h1, ← hG] at *
+    omega
+  · rintro ⟨hlen, hex⟩
+    obtain ⟨s', hs'⟩ := (iterS_isSome_iff _ L _).mpr hlen
+    refine ⟨s', hs', (rootStep_none_iff _ _ _).mpr ?_⟩
+    obtain ⟨-, -, -, G, hI⟩ := hst s' hs'
+    have hex := ((hT _).2.2).mp hex
+    have hgrp := hI.grp
+    have hlo := Nat.mul_le_mul_right nm.den hI.lo
+    have hnum0 : s'.num = 0 := by omega
+    refine ⟨hnum0, ?_⟩
+    have hdenpos : 0 < nm.den := by have := hI.lt; omega
+    have hG : Spec.ofDigits (iterD (rootStep mgr nm.den) L (rootInit mgr nm.num)) ^ n = G :=
+      Nat.eq_of_mul_eq_mul_right hdenpos (by omega)
+    rw [hI.rem, ← hG]
+    push_cast
+    omega
 
 theorem root_end_last_nonzero {n : Nat} {mgr : Manager} (hm : ManagerCorrect n mgr)
     (num den : Nat) (hnum : 0 < num) (hden : 0 < den) (L : Nat) (h : RootEndsAt mgr num den L) :
     0 < L ∧ ∀ d, (rootPrefix mgr num den L).1.getLast? = some d → d ≠ 0 := by
-  sorry
+  obtain ⟨hn, hB, hX0, aux, hnext, hnd, hst⟩ := root_state hm num den hnum hden
+  unfold RootEndsAt at h
+  rw [rootPrefix_fst, hB, iterD_ends_iff] at h
+  rw [rootPrefix_fst, hB]
+  generalize normalize num den (10 ^ n) = nm at *
+  obtain ⟨s', hs', hnone⟩ := h
+  obtain ⟨hn1, hr1⟩ := (rootStep_none_iff _ _ _).mp hnone
+  cases L with
+  | zero =>
+    exfalso
+    simp only [iterS, Option.some.injEq] at hs'
+    subst hs'
+    simp only [rootInit] at hn1
+    omega
+  | succ L =>
+    refine ⟨by omega, ?_⟩
+    obtain ⟨s'', d, h1, h2, h3⟩ := iterS_succ_inv _ L _ s' hs'
+    intro d' hd' hd0
+    rw [h3, List.getLast?_append] at hd'
+    simp only [List.getLast?_singleton, Option.some_or, Option.some.injEq] at hd'
+    subst hd'
+    subst hd0
+    obtain ⟨-, -, -, G, hI⟩ := hst L s'' h1
+    obtain ⟨-, hI', hnum'⟩ := rootStep_inv hn hB aux hnext hnd hI h2
+    generalize Spec.ofDigits (iterD (rootStep mgr nm.den) L (rootInit mgr nm.num)) = P at *
+    have hrem' := hI'.rem
+    rw [hr1] at hrem'
+    have hmp : (10 * P + 0) ^ n = P ^ n * 10 ^ n := by
+      rw [Nat.add_zero, Nat.mul_pow]; ring
+    have hG' : G * 10 ^ n + s''.num * 10 ^ n / nm.den = P ^ n * 10 ^ n := by
+      rw [← hmp]
+      have : ((G * 10 ^ n + s''.num * 10 ^ n / nm.den : Nat) : Int) = (((10 * P + 0) ^ n : Nat) : Int) := by
+        push_cast; push_cast at hrem'; omega
+      exact_mod_cast this
+    have hBpos : 0 < 10 ^ n := Nat.pow_pos (by omega)
+    have hlo := Nat.mul_le_mul_right (10 ^ n) hI.lo
+    have hdm := Nat.div_add_mod (s''.num * 10 ^ n) nm.den
+    have hmod : s''.num * 10 ^ n % nm.den = 0 := by rw [← hnum']; exact hn1
+    generalize 10 ^ n = B at hG' hlo hdm hmod hBpos
+    generalize s''.num * B / nm.den = g at hG' hdm
+    generalize hPn : P ^ n = Pn at hG' hlo
+    have hg0 : g = 0 := by omega
+    have hGB : G * B = Pn * B := by omega
+    have hGP : G = P ^ n := by rw [hPn]; exact Nat.eq_of_mul_eq_mul_right hBpos hGB
+    rw [hg0, hmod] at hdm
+    have hnum0 : s''.num = 0 := by
+      rcases Nat.mul_eq_zero.mp hdm.symm with h | h
+      · exact h
+      · omega
+    have hrem0 : s''.rem = 0 := by rw [hI.rem, hGP]; push_cast; omega
+    have := (rootStep_none_iff mgr nm.den s'').mpr ⟨hnum0, hrem0⟩
+    rw [this] at h2
+    cases h2
 
 /-- once ended, always ended: asking for more digits changes nothing -/
 theorem root_end_sticky (mgr : Manager) (num den L : Nat) (h : RootEndsAt mgr num den L) (k : Nat) (hk : L ≤ k) :
     (rootPrefix mgr num den k).1 = (rootPrefix mgr num den L).1 := by
-  sorry
+  unfold RootEndsAt at h
+  rw [rootPrefix_fst] at h
+  rw [rootPrefix_fst, rootPrefix_fst]
+  exact iterD_sticky _ L _ h k hk
 
 /-- if no finite prefix is exact the stream never ends: every position holds a digit -/
 theorem root_never_ends {n : Nat} {mgr : Manager} (hm : ManagerCorrect n mgr)
     (num den : Nat) (hnum : 0 < num) (hden : 0 < den)
     (hne : ∀ L, ¬ RootEndsAt mgr num den L) (k : Nat) :
     (rootPrefix mgr num den k).1.length = k := by
-  sorry
+  have _ := hm; have _ := hnum; have _ := hden
+  rw [rootPrefix_fst]
+  apply iterD_never_ends
+  intro L hL
+  apply hne L
+  unfold RootEndsAt
+  rw [rootPrefix_fst]
+  exact hL
+
+/-! ### rationals: the degree-1 "root" -/
+
+/-- the manager of the identity root: base 10, `incr` constantly 1 -/
+def mgr1 : Manager := ⟨10, 0, 1, 0, fun i i2 => (i, i2), fun i i2 => (i, i2)⟩
+
+theorem pw_one (Q : Int) : pw 1 Q = 1 := by simp [pw]
+
+theorem mgr1_correct : ManagerCorrect 1 mgr1 := by
+  refine ⟨by decide, rfl, rfl, rfl, fun _ => 0, rfl, ?_, ?_⟩
+  · intro Q _; simp [pw_one, mgr1]
+  · intro Q _; simp [pw_one, mgr1]
+
+theorem digitLoop_mgr1 (g : Nat) : digitLoop mgr1 (g : Int) 1 0 0 = (0, 1, 0, g) := by
+  obtain ⟨Q', -, h2, h3, h4⟩ := digitLoop_spec (n := 1) (by decide) mgr1 (fun _ => 0)
+    (by intro Q _; simp [pw_one, mgr1]) g (g + 1) 0 0 (by simp) (by simp)
+  simp only [pow_one] at h2 h3
+  have : Q' = g := by omega
+  subst this
+  simpa [pw_one] using h4
+
+theorem rootStep_mgr1 (den num : Nat) :
+    rootStep mgr1 den ⟨num, 0, 1, 0⟩ =
+      (ratStep den num).map (fun p => (p.1, ⟨p.2, 0, 1, 0⟩)) := by
+  rw [rootStep_eq, ratStep, groupStep]
+  by_cases h : num = 0
+  · simp [h]
+  · have hb : mgr1.base = 10 := rfl
+    simp only [h, false_and, if_false, hb, Int.zero_mul, Int.zero_add, digitLoop_mgr1, stepOut,
+      Option.map_some]
+    rfl
+
+theorem ratIter_eq (den k num : Nat) :
+    ratIter den k num = iterDigits mgr1 den k ⟨num, 0, 1, 0⟩ := by
+  induction k generalizing num with
+  | zero => rfl
+  | succ k ih =>
+    rw [ratIter, iterDigits, rootStep_mgr1]
+    cases ratStep den num with
+    | none => rfl
+    | some p =>
+      obtain ⟨d, num'⟩ := p
+      simp only [Option.map_some, List.cons.injEq, true_and]
+      exact ih num'
+
+theorem ratPrefix_eq (num den k : Nat) : ratPrefix num den k = rootPrefix mgr1 num den k := by
+  simp only [ratPrefix, rootPrefix, ratIter_eq]
+  rfl
 
 /-- C13 (rational): exponent and digits of `NewNumberFromBigRat(num/den)`. -/
 theorem rat_exact (num den : Nat) (hnum : 0 < num) (hden : 0 < den) (k : Nat) :
     Spec.TruncRat num den (Spec.ofDigits (ratPrefix num den k).1)
         (ratPrefix num den k).2 (ratPrefix num den k).1.length
       ∧ Spec.DigitsOk (ratPrefix num den k).1 := by
-  sorry
+  rw [ratPrefix_eq]
+  exact root_exact mgr1_correct num den hnum hden k
 
 theorem rat_ends_iff (num den : Nat) (hnum : 0 < num) (hden : 0 < den) (L : Nat) :
     RatEndsAt num den L ↔
       ((ratPrefix num den L).1.length = L ∧
         Spec.ExactRoot 1 num den (Spec.ofDigits (ratPrefix num den L).1) (ratPrefix num den L).2 L) := by
-  sorry
+  unfold RatEndsAt
+  rw [ratPrefix_eq, ratPrefix_eq]
+  exact root_ends_iff mgr1_correct num den hnum hden L
 
 theorem rat_end_last_nonzero (num den : Nat) (hnum : 0 < num) (hden : 0 < den) (L : Nat)
     (h : RatEndsAt num den L) :
     0 < L ∧ ∀ d, (ratPrefix num den L).1.getLast? = some d → d ≠ 0 := by
-  sorry
+  unfold RatEndsAt at h
+  rw [ratPrefix_eq] at h
+  rw [ratPrefix_eq]
+  exact root_end_last_nonzero mgr1_correct num den hnum hden L h
 
 end Sqroot.Proofs
